@@ -576,13 +576,15 @@ static void prop_keyder(Tape &t, Ctx &c) {
     static const uint8_t kvw[] = { KV_CANON, KV_NEG_N, KV_NEG_E, KV_NEG_BOTH, KV_CANON, KV_NEG_N, KV_NEG_E, KV_CANON };
     int kv = kvw[t.below(sizeof kvw)];
     unsigned knob = (unsigned) t.below(4); int fn = IF_MIN, fe = IF_MIN, sf = SF_DER; unsigned npad = 1, delta = 1; B trailer;
-    if (knob & 1) { int f = 1 + (int) t.below(IF_COUNT - 1); unsigned which = (unsigned) t.below(3); npad = 1 + (unsigned) t.below(3);
+    if (knob & 1) { int f = intform_pick((unsigned) t.below(10)); unsigned which = (unsigned) t.below(3); npad = 1 + (unsigned) t.below(3);
                     if (which != 1) fn = f; if (which != 0) fe = f; }
     if (knob & 2) { sf = 1 + (int) t.below(SF_COUNT - 1); delta = 1 + (unsigned) t.below(3); trailer = tape_bytes(t, 1 + (size_t) t.below(4)); }
     int entry = t.coin() ? E_DECRYPT_ELEM : E_VERIFYSIG;
     SInt N = pos(pk->n), E = pos(ox::bn_word(pk->e));
     if (kv == KV_NEG_N || kv == KV_NEG_BOTH) N.neg = true;
     if (kv == KV_NEG_E || kv == KV_NEG_BOTH) E.neg = true;
+    if (fn == IF_NOSIGN && N.neg) fn = IF_SIGNPAD;        // a negative value has no "missing leading zero" form
+    if (fe == IF_NOSIGN) fe = IF_SIGNPAD;                 // nor have e = 3, 17, 65537 (top bit clear)
     bool an = true, ae = true; B en = enc_int(N, fn, npad, an), ee = enc_int(E, fe, npad, ae);
     if (!an) fn = IF_MIN; if (!ae) fe = IF_MIN;        // e = 3, 17, 65537 have no "missing leading zero" form
     B rsapub = enc_seq(cat(en, ee), sf, trailer, delta);
